@@ -104,6 +104,10 @@ func VerifHarness_C16_bind_once() {
 		got := m.GetTCPConnection(who, other)
 		ok := vAnd(other == id, who == u1)
 		vAssert((got != nil) == ok, "C16.bind_succeeds_iff_right_id_and_owner")
+		if got != nil {
+			// a bound connection relays for as long as both sides stay: no deadline from the pending phase is left on it
+			vAssert(vAnd(env.Conns[0].RDeadline.IsZero(), env.Conns[0].WDeadline.IsZero()), "C16.bound_connection_carries_no_leftover_deadline")
+		}
 		vAssertIf(!ok, vTimerArmed(tc.bindTimer), "C16.refused_bind_keeps_the_30s_deadline_running")
 		vAssert(vMgrLockFree(m), "C18.lock_released_after_bind")
 		again := m.GetTCPConnection(u1, id)
